@@ -18,7 +18,8 @@ VARIABLES
     egid,         \* "root" | "group" | "other"
     groups,       \* "inherited" | "cleared"   supplementary groups
     rootdir,      \* "host" | "docroot"   what "/" means for the process
-    cwd,          \* "elsewhere" | "docroot"   host directory the process stands in
+    cwd,          \* "elsewhere" | "lookalike" | "docroot"   host directory the process stands in ("lookalike": outside
+                  \*                              the document root, but its path has the root's path as a string prefix)
     bound,        \* listening socket bound
     tlsLoaded,    \* certificate and key loaded
     cfgRoot,      \* "docroot" | "slash" | "other"   value of [pygopherd] root in the config
@@ -30,15 +31,18 @@ vars == <<cfg, euid, egid, groups, rootdir, cwd, bound, tlsLoaded, cfgRoot, phas
 
 Drops == {"chroot", "setgroups", "setgid", "setuid"}
 
-Configs == [chroot : BOOLEAN, uid : BOOLEAN, gid : BOOLEAN, tls : BOOLEAN]
+\* garbled: the usechroot option holds a value that is no boolean spelling ("enabled"): nobody can say what is configured
+Configs == [chroot : BOOLEAN, uid : BOOLEAN, gid : BOOLEAN, tls : BOOLEAN, garbled : BOOLEAN]
+StartDirs == {"elsewhere", "lookalike", "docroot"}   \* where the daemon is started from
 
 Starters == {"root", "other"}        \* who runs the daemon: root, or an ordinary account
 
-InitWithAs(c, u) ==
+InitFull(c, u, sd) ==
     /\ cfg = c /\ euid = u /\ egid = u /\ groups = "inherited"
-    /\ rootdir = "host" /\ cwd = "elsewhere" /\ bound = FALSE /\ tlsLoaded = FALSE
+    /\ rootdir = "host" /\ cwd = sd /\ bound = FALSE /\ tlsLoaded = FALSE
     /\ cfgRoot = "docroot" /\ phase = "starting" /\ failed = FALSE /\ dropped = {}
 
+InitWithAs(c, u) == InitFull(c, u, "elsewhere")
 InitWith(c) == InitWithAs(c, "root")
 
 --------------------------------------------------------------------------------
@@ -139,10 +143,11 @@ Abort ==
 Prog(c) ==
     (IF c.tls THEN <<"loadtls">> ELSE <<>>) \o <<"bind">> \o
     (IF c.uid THEN <<"lookupuser">> ELSE <<>>) \o (IF c.gid THEN <<"lookupgroup">> ELSE <<>>) \o
+    (IF c.garbled THEN <<>> ELSE        \* getboolean("usechroot") raises on an unreadable value: nothing further happens
     (IF c.chroot THEN <<"chroot", "chdir", "cfgroot">> ELSE <<>>) \o
     (IF c.uid \/ c.gid THEN <<"setgroups">> ELSE <<>>) \o
     (IF c.gid THEN <<"setgid">> ELSE <<>>) \o
-    (IF c.uid THEN <<"setuid">> ELSE <<>>)
+    (IF c.uid THEN <<"setuid">> ELSE <<>>))
 
 --------------------------------------------------------------------------------
 (* The property C19, clause by clause.  State clauses are evaluated in every state;        *)
@@ -192,6 +197,9 @@ RootKept == (phase = "serving" /\ ~cfg.chroot) => (cfgRoot = "docroot" /\ rootdi
 \* "A failure in any of these steps aborts start-up"
 FailAborts == failed => phase # "serving"
 
+\* an option whose value cannot be understood is a failure of start-up, never "not configured"
+GarbledAborts == phase = "serving" => ~cfg.garbled
+
 \* the socket is there when serving starts
 ServingIsBound == phase = "serving" => (bound /\ (cfg.tls => tlsLoaded))
 
@@ -201,6 +209,7 @@ StateClauses ==
     ELSE IF ~FullyDropped THEN "FullyDropped"
     ELSE IF ~RootKept THEN "RootKept"
     ELSE IF ~FailAborts THEN "FailAborts"
+    ELSE IF ~GarbledAborts THEN "GarbledAborts"
     ELSE IF ~ServingIsBound THEN "ServingIsBound"
     ELSE "ok"
 =============================================================================
